@@ -395,6 +395,21 @@ func singleStore(a *ssa.Alloc) ssa.Value {
 	return nil
 }
 
+// isRangeIndexPhi: phi is the hidden counter of a range loop over a slice,
+// array or count (the value compared with the length is phi + 1).
+func isRangeIndexPhi(phi *ssa.Phi) bool {
+	refs := phi.Referrers()
+	if refs == nil {
+		return false
+	}
+	for _, ref := range *refs {
+		if b, ok := ref.(*ssa.BinOp); ok && b.X == ssa.Value(phi) && isRangeIndex(b) {
+			return true
+		}
+	}
+	return false
+}
+
 func isRangeIndex(v ssa.Value) bool {
 	// rangeindex loops: t1 = phi [entry: -1, body: t2]; t2 = t1 + 1
 	b, ok := v.(*ssa.BinOp)
